@@ -545,11 +545,16 @@ func voteextProfile() *Profile {
 				continue
 			}
 			used[vs.Val] = true
-			switch pick("mode", 10) {
+			switch pick("mode", 11) {
 			case 0:
 				vs.Mode = 1
 			case 1:
 				vs.Mode = 2
+			case 10:
+				// nil precommit carrying unsigned extension data (mostly the honest payload: attestations, valset signature)
+				vs.Mode = 6
+				vs.Mut = []int{15, 15, 4, 8, 2}[pick("nilmut", 5)]
+				vs.Arg = pick("nilarg", 64)
 			case 2:
 				vs.Mode = 4
 			default:
